@@ -27,6 +27,7 @@ import (
 
 	quic "github.com/refraction-networking/uquic"
 	"github.com/refraction-networking/uquic/internal/monotime"
+	"github.com/refraction-networking/uquic/qlogwriter"
 	"github.com/refraction-networking/uquic/testutils/simnet"
 	tls "github.com/refraction-networking/utls"
 )
@@ -556,6 +557,7 @@ type Nodes struct {
 	CQ           *quic.Config
 	SQ           *quic.Config
 	Spec         *quic.QUICSpec
+	QLog         [2]*wQLog // endpoint-side view: in-memory qlog of the client's (0) and the server's (1) connections
 	SessionCache tls.ClientSessionCache
 	TokenStore   quic.TokenStore
 }
@@ -599,6 +601,9 @@ func NewNodes(w *World, cfg *WConfig) (*Nodes, error) {
 	n.STLS = &tls.Config{Certificates: []tls.Certificate{n.PKI.cert}, NextProtos: []string{wALPN}, KeyLogWriter: w.Tap}
 	n.CTLS = &tls.Config{RootCAs: n.PKI.pool, ServerName: "localhost", NextProtos: []string{wALPN}, KeyLogWriter: w.Tap}
 	n.CQ, n.SQ = cfg.quicConfig(0), cfg.quicConfig(1)
+	n.QLog[0], n.QLog[1] = &wQLog{w: w}, &wQLog{w: w}
+	n.CQ.Tracer = func(context.Context, bool, quic.ConnectionID) qlogwriter.Trace { return n.QLog[0] }
+	n.SQ.Tracer = func(context.Context, bool, quic.ConnectionID) qlogwriter.Trace { return n.QLog[1] }
 	n.STr = &quic.Transport{Conn: n.SConn, ConnectionIDLength: cfg.ServerCIDLen}
 	if cfg.Retry {
 		n.STr.VerifySourceAddress = func(net.Addr) bool { return true }
@@ -710,4 +715,30 @@ func wBegin(cfg *WConfig) {
 
 func wEnd() {
 	wSetKeyUpdateInterval(0)
+}
+
+// ---------------------------------------------------------------- endpoint-side view (qlog in memory)
+
+type wQEvent struct {
+	AtNS int64
+	Ev   qlogwriter.Event
+}
+
+// wQLog implements qlogwriter.Trace and Recorder: events are appended to a slice (no clock reads other than the
+// bubble's, no randomness: recording does not perturb the schedule).
+type wQLog struct {
+	mu     sync.Mutex
+	w      *World
+	Events []wQEvent
+}
+
+func (q *wQLog) AddProducer() qlogwriter.Recorder { return q }
+func (q *wQLog) SupportsSchemas(string) bool      { return true }
+func (q *wQLog) Close() error                     { return nil }
+func (q *wQLog) RecordEvent(ev qlogwriter.Event) {
+	q.mu.Lock()
+	if len(q.Events) < 400000 {
+		q.Events = append(q.Events, wQEvent{q.w.NowNS(), ev})
+	}
+	q.mu.Unlock()
 }
